@@ -1,4 +1,5 @@
 mod common;
+mod eng_c08;
 mod eng_c20;
 mod peer;
 
@@ -17,6 +18,7 @@ fn main() {
         replay: args.get(5).cloned(),
     };
     match args[1].as_str() {
+        "C08" => eng_c08::run(&cfg),
         "C20" => eng_c20::run(&cfg),
         other => {
             eprintln!("unknown property {}", other);
